@@ -388,6 +388,16 @@ Proof.
   - intros _. lia.
 Qed.
 
+(** [initial_mtu] above the configured [upper_bound] (independent public setters): the search's
+    upper bound is clamped UP to the current MTU by [SearchState::new], and no probe is issued. *)
+Lemma no_probe_when_upper_bound_not_above_current m plow e now pn e' r :
+  reach m plow -> st m = Some e -> Z.min (c_upper (config e)) (peer_max e) <= cur m ->
+  enabled_poll e now (cur m) pn = Some (e', r) -> r = None.
+Proof.
+  intros Hr Hs Hle Hp. destruct r as [p|]; [|reflexivity].
+  destruct (probe_bounds _ _ _ _ _ _ _ Hr Hs Hp) as (_ & Hb & _). lia.
+Qed.
+
 End Proofs.
 
 (* ------------------------------------------------------------------ refutations (vm_compute witnesses) *)
